@@ -93,6 +93,12 @@ class Cache(object):
         # used by meta elements
         self.is_cache = True
 
+        if '{' not in filename:
+            # the directory of a formatting string is known
+            # only after the context is set
+            self._make_cache_dir()
+
+    def _make_cache_dir(self):
         cache_dir = os.path.dirname(self._filename)
         if cache_dir:
             # could be empty for files in current directory
@@ -166,6 +172,7 @@ class Cache(object):
             pass
         else:
             self._filename = filename
+            self._make_cache_dir()
 
     @staticmethod
     def alter_sequence(seq):
